@@ -695,10 +695,11 @@ def new_graph(lang: Lang, passthrough: bool):
 class Obs:
     """what is compared of a finished graph: concept nodes with a colour
     (operators, type texts, labels, input/output marks) and from/internal edges"""
-    __slots__ = ("nodes", "edges", "rmap", "error")
+    __slots__ = ("nodes", "edges", "rmap", "error", "unfixed")
 
     def __init__(self):
         self.nodes, self.edges, self.rmap, self.error = {}, set(), {}, None
+        self.unfixed = []
 
 
 _VAR = re.compile(r"τ[0-9₀-₉]*")
@@ -777,7 +778,18 @@ def run_wf(lang: Lang, wf, how="listed", passthrough=True, app_order=None, sourc
         w = build_wf(lang, wf, how, app_order, source_order)
         g = new_graph(lang, passthrough)
         m = g.add_workflow(w)
-        return observe(lang, g, m)
+        o = observe(lang, g, m)
+        # sources whose type variable still carries a BOUND (not a pending constraint): fixing an
+        # expression resolves those, so one left over belongs to an expression that was never fixed
+        from transforge.expr import Source
+        from transforge.type import TypeVariable
+        o.unfixed = []
+        for ex in g.expr_nodes:
+            if isinstance(ex, Source):
+                t = ex.type.follow()
+                if isinstance(t, TypeVariable) and (t.lower is not None or t.upper is not None):
+                    o.unfixed.append(norm_vars(t.text(with_constraints=True)))
+        return o
     except WorkflowCompositionError as e:
         o = Obs()
         c = e.__cause__
@@ -1503,6 +1515,13 @@ def check_case(rep: C.Report, rng, case: Case, tier, acc: Counter, idx: int, all
         base = run_wf(lang, wf, "listed", pt, orders[0][0], orders[0][1])
         acc[f"outcome_{tag}_{'ok' if base.error is None else base.error[0]}"] += 1
         case.model_jobs.append((pt, orders[0][0], orders[0][1], base))
+        # --- (g) add_workflow leaves no source with a bounded, unresolved type variable: every
+        # expression of the workflow is fixed in the end (its sources to their most general type)
+        if base.error is None and getattr(base, "unfixed", None):
+            acc["unfixed_sources"] += 1
+            rep.violation(f"unfixed_{tag}_{idx}", case.payload(kind="oracle", passthrough=pt,
+                what="after add_workflow a source's type variable still carries a bound: the expression it "
+                     "belongs to was not fixed", source_types=base.unfixed, impl=listing(base)), has_input=True)
         # --- (f) each source gets the most general type acceptable to all of its uses: when
         # Workflow.source_types departs from its specification (no type for a source with a use
         # that is not annotated, else the least annotated type), the inlined expression with the
@@ -1593,7 +1612,11 @@ def check_case(rep: C.Report, rng, case: Case, tier, acc: Counter, idx: int, all
                         what="add_workflow rejects the workflow but the inlined expression type-checks",
                         inlined_expression=text, error=list(base.error),
                         sources_left_to_inference=open_sources, inlined_graph=listing(io)),
-                        has_input=True, signature=None)     # the recorded finding is the other direction
+                        has_input=True,
+                        # the recorded finding shows in this direction only when the open source meets a
+                        # compound-typed parameter (bound at once, parameters included)
+                        signature=SIG_INFER if open_sources and open_source_meets_compound(lang, wf, open_sources)
+                        else None)
             continue
         # --- (a) the property, structurally
         sp = spec_obs(lang, wf, pt)
